@@ -161,6 +161,9 @@ def _one_evaluation(case, rec, obj, y, entry, free, x0, method, key):
         # a cost evaluation in between (what an optimiser does): checked against the reference cost
         got = float(call(key, case, obj.cost, np.array(free)))
         refc = lossgen.ref_cost(case, y, yhat)
+        from pbt.props.c06 import _well_conditioned
+        traj_ = lossgen.reference_traj(m, lossgen.full_theta(case, free), x0, su["t0"], times)
+        _well_conditioned(case, y, yhat, traj_, refc)      # same guard as C06: a log-type loss on decayed predictions
         if not np.isfinite(got) or abs(got - refc) > 1e-5 * (1 + abs(refc)):
             raise PropertyViolation(key + "/value", "cost(theta) = %.12g in a call sequence, reference %.12g" % (got, refc), case)
         return None
